@@ -596,6 +596,8 @@ impl Node {
             publisher: None,
             expires: None,
         };
+        // the merged register is a new record: it must stay below what a peer accepts and kad can carry
+        Self::refuse_oversized_record(&record)?;
         let content_hash = XorName::from_content(&record.value);
 
         info!("Storing register {reg_addr:?} with content of {content_hash:?} as Record locally");
@@ -689,6 +691,9 @@ impl Node {
             publisher: None,
             expires: None,
         };
+        // the union with the local transactions is a new record: it must stay below what a peer accepts
+        // and kad can carry (each part was below the limit on its own)
+        Self::refuse_oversized_record(&record)?;
         self.network().put_local_record(record);
         debug!("Successfully stored validated transactions at {pretty_key:?}");
 
